@@ -215,6 +215,10 @@ class Batch:
             ds["bam_files"] = [ds["bams"][s] for s in ds["samples"]]
             ds["ploidy_arg"] = "4"
             ds["uniform_ploidy"] = 4
+        elif cfg["dataset"] == "cohort":
+            ds = datasets.generate_cohort(os.path.join(self.tmp, "ds"), cfg["data_seed"])
+            ds["ploidy_arg"] = "4"
+            ds["uniform_ploidy"] = 4
         else:
             bad = None
             if cfg.get("fail") and cfg["fail"]["kind"] == "real":
